@@ -9,7 +9,7 @@ from __future__ import annotations
 
 import ast
 
-from .model import norm, walk_with_nested_exprs
+from .model import norm, walk_own, walk_with_nested_exprs
 
 FLOAT_CALLS = ("total_seconds", "timestamp", "perf_counter", "monotonic", "process_time")
 FLOAT_FUNCS = ("float", "time.time", "time.perf_counter", "time.monotonic", "time.process_time", "math.sqrt", "math.fsum")
@@ -92,3 +92,137 @@ def certain_raises(fi):
             if {a, b} in ({"str", "float"}, {"str", "int"}):
                 out.append((n, f"`{norm(n)[:70]}` adds text and a number: TypeError every time it is evaluated"))
     return out
+
+
+# ---------------------------------------------------------------------------------------------------------
+# LOG-TOTAL: what a logging statement evaluates must be defined for every input the function accepts
+
+
+def _is_log_call(c):
+    from .normalize import _is_log_call as f
+
+    return f(c)
+
+
+def _guard_names(node, stop):
+    """names mentioned by the tests of the if / conditional expressions / while loops that enclose `node` (up to `stop`)"""
+    from .model import parent
+
+    out = set()
+    cur, p = node, parent(node)
+    while p is not None and cur is not stop:
+        if isinstance(p, (ast.If, ast.While, ast.IfExp)) and cur is not p.test:
+            out |= {norm(x) for x in ast.walk(p.test) if isinstance(x, (ast.Name, ast.Attribute, ast.Call))}
+        if isinstance(p, ast.BoolOp) and cur in p.values:
+            for v in p.values[: p.values.index(cur)]:
+                out |= {norm(x) for x in ast.walk(v) if isinstance(x, (ast.Name, ast.Attribute, ast.Call))}
+        cur, p = p, parent(p)
+    return out
+
+
+def log_partial_ops(fi):
+    """-> [(node, why)]: operations inside the arguments of a logging call (f-string parts included) that are not defined for
+    every value: first / last element of a sequence that may be empty, division by a quantity that may be zero, %-formatting
+    of text that was itself interpolated, a numeric format code on a value that is not a number"""
+    from .model import parent
+
+    out = []
+    ann = {}
+    a = fi.node.args
+    for p_ in a.posonlyargs + a.args + a.kwonlyargs:
+        if p_.annotation is not None:
+            ann[p_.arg] = norm(p_.annotation)
+    for c in [x for x in walk_with_nested_exprs(fi.node) if isinstance(x, ast.Call) and _is_log_call(x)]:
+        for n in [y for arg in list(c.args) + [k.value for k in c.keywords] for y in ast.walk(arg)]:
+            guards = None
+            if isinstance(n, ast.Subscript) and isinstance(n.ctx, ast.Load) and isinstance(n.value, (ast.Name, ast.Attribute)):
+                idx = n.slice
+                k = idx.value if isinstance(idx, ast.Constant) else (-idx.operand.value if isinstance(idx, ast.UnaryOp) and isinstance(idx.op, ast.USub) and isinstance(idx.operand, ast.Constant) else None)
+                if isinstance(k, int) and not isinstance(k, bool):
+                    guards = _guard_names(c, fi.node)
+                    base = norm(n.value)
+                    if base not in guards and f"len({base})" not in guards:
+                        out.append((n, f"`{norm(n)[:40]}` in a log statement takes element {k} of `{base}`, which may be empty here: the arguments of a logging call are evaluated whatever the log level, so an empty `{base}` raises IndexError instead of being processed"))
+            if isinstance(n, ast.BinOp) and isinstance(n.op, (ast.Div, ast.FloorDiv, ast.Mod)) and static_kind(n.left, fi) != "str" and not isinstance(n.left, ast.JoinedStr):
+                r = n.right
+                if not (isinstance(r, ast.Constant) and isinstance(r.value, (int, float)) and r.value != 0):
+                    guards = _guard_names(c, fi.node)
+                    names = {norm(x) for x in ast.walk(r) if isinstance(x, (ast.Name, ast.Attribute, ast.Call))}
+                    if not (names & guards):
+                        out.append((n, f"`{norm(n)[:50]}` in a log statement divides by `{norm(r)[:30]}`, which may be zero (an empty input, a single element): the arguments of a logging call are evaluated whatever the log level, so the function raises ZeroDivisionError for that input"))
+            if isinstance(n, ast.BinOp) and isinstance(n.op, ast.Mod) and isinstance(n.left, ast.JoinedStr) and any(isinstance(v, ast.FormattedValue) for v in n.left.values):
+                out.append((n, f"`{norm(n)[:60]}` applies %-formatting to text that was already interpolated: a `%` in the interpolated value (a bucket id, a title) is read as a conversion and raises ValueError / TypeError"))
+            if isinstance(n, ast.BinOp) and isinstance(n.op, ast.Mod) and isinstance(n.left, ast.Constant) and isinstance(n.left.value, str):
+                import re as _re
+
+                convs = _re.findall(r"%[-+ #0]*\d*(?:\.\d+)?([a-zA-Z%])", n.left.value)
+                convs = [x for x in convs if x != "%"]
+                ops = list(n.right.elts) if isinstance(n.right, ast.Tuple) else [n.right]
+                for cv, op in zip(convs, ops):
+                    if cv in "dioxXeEfFgG" and isinstance(op, ast.Attribute) and op.attr == "id":
+                        out.append((n, f"`%{cv}` is applied to `{norm(op)}` while the message is built (eager %-formatting): an event that was never stored has id None, and `%{cv}` of None raises TypeError"))
+            if isinstance(n, ast.FormattedValue) and n.format_spec is not None:
+                ty = _spec_type(n.format_spec)
+                v = n.value
+                temporal = (isinstance(v, ast.Name) and any(t_ in ann.get(v.id, "") for t_ in ("timedelta", "datetime", "Duration", "ConvertibleTimestamp"))) or (isinstance(v, ast.Attribute) and v.attr in ("duration", "timestamp")) or (isinstance(v, ast.Subscript) and isinstance(v.slice, ast.Constant) and v.slice.value in ("duration", "timestamp"))
+                if ty and ty in "dxXobceEfFgGn%" and temporal:
+                    out.append((n, f"`{{{norm(v)}:{ty}}}` formats a timedelta / datetime with the numeric presentation '{ty}': their __format__ rejects it (TypeError / ValueError) whenever the line is reached"))
+    return out
+
+
+def log_total(prog, rep, files, rule="LOG-TOTAL"):
+    """files: repo-relative paths (the property's anchor files)"""
+    rep.rule(rule, "what a logging statement evaluates is defined for every input: no first / last element of a possibly empty sequence, no division by a possibly zero count, no %-formatting of interpolated text or of a None id, no numeric format code on a timedelta / datetime. The arguments of a logging call are evaluated whatever the log level: such a line turns an input the function handled (an empty list, a single event, an unsaved event) into an exception")
+    n = 0
+    for fi in prog.funcs.values():
+        if fi.mod.relpath not in files:
+            continue
+        n += 1
+        for node, why in log_partial_ops(fi):
+            rep.violation(rule, fi.short, norm(node)[:50], why, fi.loc(node))
+    rep.ok(rule, "anchor files", "logging statements", f"{n} functions scanned in {sorted(files)}", None)
+
+
+# ---------------------------------------------------------------------------------------------------------
+# ONE-SHOT: an iterator object that is consumed more than once yields nothing the second time
+
+ONE_SHOT_CALLS = ("iter", "zip", "map", "filter", "enumerate", "reversed", "itertools.chain", "chain", "itertools.islice", "islice", "itertools.filterfalse", "filterfalse", "itertools.takewhile", "takewhile", "itertools.dropwhile", "dropwhile", "itertools.groupby", "groupby")
+
+
+def one_shot_reuse(prog, rep, files, rule="ONE-SHOT"):
+    """a local (or re-bound parameter) that may hold a one-shot iterator and is used inside a loop / comprehension of the same
+    function (i.e. once per element), or handed to a per-element call there"""
+    from .model import parent
+    from .sqlmodel import local_defs
+
+    rep.rule(rule, "a name that may be bound to a one-shot iterator (generator expression, iter / zip / map / filter / enumerate / reversed / itertools object) is not used inside a loop body or comprehension of that function: the first round consumes it, every later element sees an empty sequence (rules that are never tried, keys that are never compared)")
+    n = 0
+    for fi in prog.funcs.values():
+        if fi.mod.relpath not in files:
+            continue
+        n += 1
+        cand = {}
+        for node in walk_own(fi.node):
+            if isinstance(node, ast.Assign) and len(node.targets) == 1 and isinstance(node.targets[0], ast.Name):
+                v = node.value
+                arms = [v.body, v.orelse] if isinstance(v, ast.IfExp) else [v]
+                for a in arms:
+                    if isinstance(a, ast.GeneratorExp) or (isinstance(a, ast.Call) and norm(a.func) in ONE_SHOT_CALLS):
+                        cand.setdefault(node.targets[0].id, node)
+        for name, d in cand.items():
+            for use in walk_with_nested_exprs(fi.node):
+                if not (isinstance(use, ast.Name) and use.id == name and isinstance(use.ctx, ast.Load)):
+                    continue
+                # inside the body of a loop / the element or condition of a comprehension (not: the iterable of the outermost loop)
+                cur, p = use, parent(use)
+                repeated = None
+                while p is not None and p is not fi.node:
+                    if isinstance(p, (ast.For, ast.While)) and any(cur is b or any(cur is y for y in ast.walk(b)) for b in p.body):
+                        repeated = p
+                    if isinstance(p, (ast.ListComp, ast.SetComp, ast.GeneratorExp, ast.DictComp)) and not any(any(use is y for y in ast.walk(g_.iter)) for g_ in p.generators[:1]):
+                        repeated = p
+                    cur, p = p, parent(p)
+                if repeated is not None and d.lineno <= use.lineno and not any(d is y for y in ast.walk(repeated)):
+                    rep.violation(rule, fi.short, f"`{name}` used per element", f"`{name}` may be bound to a one-shot iterator (`{norm(d)[:70]}`) and is used at line {use.lineno} inside `{norm(repeated).splitlines()[0][:50]}`, which runs once per element: the first element consumes the iterator, every later one finds it empty", fi.loc(use))
+                    break
+    rep.ok(rule, "anchor files", "iterator objects", f"{n} functions scanned", None)
